@@ -160,6 +160,47 @@ def build_run(d, lang, maxn):
     return recs, asan
 
 
+def end_to_end(c, tier):
+    """Which conversion each kind of character argument / result gets: every function of the wide member of the
+    TLA+ grammar (specs/LibGenPairs.tla) that has a character or std::string argument or result, called from a
+    generated Fortran program with blank, empty, exact-fit and blank-containing texts; each call validated by TLC
+    against the call contract (Trace_CallBridge: input trimmed and NUL terminated, output blank padded or truncated
+    to the declared length, allocatable results of the exact length), with and without F_CFI."""
+    import concurrent.futures as cf
+    from rt import libgen, fgen, cases as K
+    STR = {"cstr_in", "str_cref", "str_ref_inout", "str_ref_out"}
+
+    def stringy(x):
+        return x["result"] in ("cstr", "str_cref") or any(p["kind"] in STR for p in x["params"])
+    configs = []
+    for tag, opts in (("str", {}), ("str-cfi", {"F_CFI": True})):
+        lib = libgen.without_cfi_conflict(libgen.wide_library(**opts))
+        cs = [x for x in libgen.cases_of(lib, set(K.FROWS), set(K.FRESULTS)) if stringy(x)]
+        cs += [x for x in K.vector_cases() if x["name"] == "v10"]
+        configs.append((tag, opts, cs))
+    with common.scratch("c10e-") as base:
+        with cf.ThreadPoolExecutor(2) as ex:
+            res = list(ex.map(lambda cfg: (cfg[0], fgen.build_and_run_f(os.path.join(base, cfg[0]), cfg[2], False,
+                                                                         6 if tier == "thorough" else 4, cfg[1])), configs))
+    traces, labels = [], []
+    for name, rr in res:
+        for kind, what in rr["problems"]:
+            c.violation("e2e-build:%s:%s" % (name, kind), "%s: %s" % (kind, str(what)[-600:]), {"config": name})
+        for t in rr["traces"]:
+            traces.append({"sig": t["sig"], "events": t["events"]})
+            labels.append("%s: %s" % (name, t["label"]))
+    if not traces:
+        raise MachineryError("no end-to-end string calls recorded")
+    v, st = validate_traces("Trace_CallBridge", "Trace_CallBridge", traces, shard=2000)
+    c.add_stats(st, "Trace_CallBridge/strings", len(traces))
+    for (verdict, detail), lab, t in zip(v, labels, traces):
+        if verdict == "REJECT":
+            c.violation("e2e:" + lab.split(": ", 1)[1], "%s: %s" % (lab, detail), {"call": lab, "events": t["events"], "detail": detail})
+        else:
+            c.count(1, [lab])
+    c.part("end_to_end", calls=len(traces), configurations=[n for n, _ in res])
+
+
 def run(tier):
     with Check("C10", tier) as c:
         thorough = tier == "thorough"
@@ -219,6 +260,7 @@ def run(tier):
             if v != "REJECT":
                 raise MachineryError("negative control %d not rejected: %s %s" % (i, v, detail))
         c.part("conformance", records=len(traces), verdicts=cnt, negative_controls_rejected=len(controls), max_length=maxn)
+        end_to_end(c, tier)
         c.cov["exhaustive"] = True
         c.cov["rule"] = ("every Fortran text over {a, blank} of length 0..%d x every destination length 0..%d for "
                          "LenTrim, StrAlloc, StrCopy (explicit length, strlen, NULL source) and BlankFill; CHARACTER(len) "
